@@ -66,6 +66,13 @@ Proof.
   replace (c <=? c + b) with true by (symmetry; apply N.leb_le; lia). f_equal. lia.
 Qed.
 
+Ltac obind_inv H :=
+  repeat match type of H with
+         | obind ?o _ = Some _ => let E := fresh "E" in destruct o eqn:E; [cbn [obind] in H|discriminate H]
+         | (let '(_, _) := ?p in _) = Some _ => destruct p
+         | (if ?c then _ else _) = Some _ => let E := fresh "E" in destruct c eqn:E; [|discriminate H]
+         end.
+
 Section Safe.
 Variable host : nat -> list val -> option memory -> host_result.
 Variable cap : N.
@@ -498,10 +505,10 @@ Proof.
            apply seq_cons_safe with (x := 0); [|apply tailB; lia].
            apply brif0_safe. intros; apply IHI; lia.
         -- destruct (n0 =? 1); [|discriminate]. inversion E1; subst; clear E1. cbn [app].
-           apply (brif1_safe (S f0) hj (c_branch cfg n0) idx). intros f' Hl. apply tailB; lia.
+           apply brif1_safe. intros f' Hl. apply tailB; lia.
       * (* memory.grow *)
         inversion Ej; subst; clear Ej. cbn [mcombine] in Hm. inversion Hm; subst; clear Hm. cbn [app].
-        apply seq_cons_safe with (x := hj + hr); [apply call0_safe|].
+        eapply seq_cons_safe; [apply call0_safe|].
         destruct f0 as [|f1]; [apply safeSeq_0|].
         apply seq_cons_safe with (x := hr); [|apply tailA; lia].
         apply pending_safe. right. destruct b; cbn [kind_of] in Ek; try discriminate. reflexivity.
@@ -511,7 +518,7 @@ Proof.
       inversion Hm; subst; clear Hm. cbn [app].
       apply seq_cons_safe with (x := 0); [|apply tailB; lia].
       destruct f0 as [|f1]; [apply instrSafe_0|].
-      apply (block_safe f1 (OSrc n 0) bt l n0). exact (IHA f1 ltac:(lia) _ _ _ _ E0).
+      refine (block_safe f1 (OSrc _ 0) _ _ _ _). eapply (IHA f1 ltac:(lia)); eassumption.
     + (* Loop *)
       obind_inv Ej. inversion Ej; subst; clear Ej. cbn [mcombine] in Hm. destruct (seg_ok hr); [|discriminate].
       inversion Hm; subst; clear Hm. cbn [app].
@@ -521,7 +528,7 @@ Proof.
       obind_inv Ej. inversion Ej; subst; clear Ej. cbn [mcombine] in Hm. destruct (seg_ok hr); [|discriminate].
       inversion Hm; subst; clear Hm. cbn [app].
       apply seq_cons_safe with (x := 0); [|apply tailB; lia].
-      apply if_safe; intros f' Hl; [exact (IHB f' ltac:(lia) _ _ _ _ E0)|exact (IHB f' ltac:(lia) _ _ _ _ E1)].
+      apply if_safe; intros f' Hl; eapply (IHB f' ltac:(lia)); eassumption.
 Qed.
 
 Theorem safe_all : forall f, SafeAll f.
@@ -536,3 +543,67 @@ Proof.
 Qed.
 
 End Safe.
+
+(** ** the statement for whole runs of a metered module *)
+Lemma inject_imports cfg m m' : inject cfg m = Some m' -> (0 < length (m_imports m'))%nat.
+Proof.
+  unfold inject. destruct (omap_list _ _); [|discriminate]. intro H; inversion H; subst; cbn. lia.
+Qed.
+
+Lemma ameter_funcs_metered cfg m afs :
+  ameter_funcs cfg m = Some afs -> Forall (metered_fn cfg (ctx_of_module m)) afs.
+Proof.
+  intro H. eapply omap_list_forall; [exact H|]. intros f fn Hf. unfold ameter_func in Hf.
+  destruct (nth_error (m_types m) (f_type f)) as [ft|]; [|discriminate].
+  destruct (ameter_body _ _ _ _ _) as [b|] eqn:Eb; [|discriminate]. inversion Hf; subst.
+  exists (ft_result ft), (f_body f), (N.of_nat (length (f_locals f))), b. cbn. auto.
+Qed.
+
+Theorem metered_run_prepaid_exact cfg m m' afs host cap fuel fi args T o :
+  inject cfg m = Some m' -> ameter_funcs cfg m = Some afs ->
+  trun host cap m' afs fuel fi args = (T, o) ->
+  (forall p q, T = p ++ q -> work p <= ticks p) /\
+  (forall r mem g, o = Done r mem g -> ticks T = work T).
+Proof.
+  intros Hi Ha H. unfold trun in H. destruct (instantiate m') as [s|].
+  - destruct (tinvoke host cap m' afs fuel s fi args) as [t r0] eqn:E.
+    destruct (safe_all host cap m' afs cfg (ctx_of_module m) (inject_imports _ _ _ Hi) (ameter_funcs_metered _ _ _ Ha) fuel)
+      as [_ [_ [HI _]]].
+    destruct (HI _ _ _ _ _ E) as [b [Hb Hr]].
+    assert (T = t) by (destruct r0 as [[]|[? ?]]; inversion H; reflexivity). subst t.
+    split.
+    + intros p q Hpq. subst T. apply bal_prefix in Hb. lia.
+    + intros r mem g Ho. destruct r0 as [r0|[s' rv]].
+      * destruct r0; inversion H; subst; discriminate.
+      * subst b. apply bal_conserve in Hb. lia.
+  - inversion H; subst. split; [intros p q Hpq; destruct p; [cbn; lia|discriminate]|discriminate].
+Qed.
+
+(** the module [inject] builds is the erasure of the annotated functions the theorems are about *)
+Lemma inject_erase cfg m m' afs :
+  inject cfg m = Some m' -> ameter_funcs cfg m = Some afs -> m_funcs m' = map erase_func afs.
+Proof.
+  unfold inject, ameter_funcs. intros Hi Ha.
+  destruct (omap_list (meter_func cfg m) (m_funcs m)) as [fs|] eqn:E; [|discriminate].
+  inversion Hi; subst; cbn. clear Hi. revert fs afs E Ha.
+  induction (m_funcs m) as [|f r IH]; intros fs afs E Ha; cbn [omap_list] in *.
+  - inversion E; inversion Ha; reflexivity.
+  - destruct (meter_func cfg m f) as [f'|] eqn:E0; [|discriminate].
+    destruct (ameter_func cfg m f) as [af|] eqn:A0; [|discriminate].
+    destruct (omap_list (meter_func cfg m) r) as [fs'|] eqn:E1; [|discriminate].
+    destruct (omap_list (ameter_func cfg m) r) as [afs'|] eqn:E2; [|discriminate].
+    inversion E; inversion Ha; subst. cbn [map]. f_equal; [|apply IH; reflexivity].
+    unfold meter_func, meter_body in E0. unfold ameter_func in A0.
+    destruct (nth_error (m_types m) (f_type f)) as [ft|]; [|discriminate].
+    destruct (ameter_body cfg (ctx_of_module m) _ _ _) as [b|]; [|discriminate].
+    inversion E0; inversion A0; subst. reflexivity.
+Qed.
+
+(** instructions of non-zero cost executed so far never outnumber the energy ticked so far *)
+Lemma works_le_work t : N.of_nat (length (works t)) <= work t.
+Proof.
+  induction t as [|e t IH]; cbn [works work length]; [lia|].
+  destruct e; try exact IH. destruct (0 <? c) eqn:E; cbn [length].
+  - apply N.ltb_lt in E. lia.
+  - lia.
+Qed.
